@@ -58,3 +58,35 @@ c09_built!(c09_built_pawn_capture_w, Color::White, 1);
 c09_built!(c09_built_pawn_capture_b, Color::Black, 1);
 c09_built!(c09_built_castling_w, Color::White, 2);
 c09_built!(c09_built_castling_b, Color::Black, 2);
+
+// Data::from_move for everything that needs no candidates (pawn moves, en passant, castling, null).
+// The candidate generator is replaced by a no-op: it is not called on these paths, but without the
+// stub its whole body stays in the formula (the piece is symbolic until the solver runs).
+fn stub_no_candidates<P: MovePush>(_b: &Board, _piece: Piece, _dst: Coord, _res: &mut P) {}
+harness! {
+    #[kani::unwind(14)]
+    #[kani::stub(crate::movegen::san_candidates, stub_no_candidates)]
+    fn c09_from_move_pawns_castling_v2() {
+        let b = ab::any_board();
+        let white = b.r.side == Color::White;
+        let k = vk::any_u8(); vk::assume(k < 10);
+        let cellc = if k == rs::K_CASTLE_K || k == rs::K_CASTLE_Q { rs::code(white, rs::KING) } else if k == 0 { 0 } else { rs::code(white, rs::PAWN) };
+        let s = ab::any_sq(); let d = ab::any_sq();
+        let mv = unsafe { base::Move::new_unchecked(rs::mk_kind(k), ab::cell(cellc), ab::coord(s), ab::coord(d)) };
+        vk::assume(rs::ref_well_formed(rs::rmove(mv)));
+        let data = Data::from_move(mv, &b);
+        let promo = match k { 6 => Some(PromotePiece::Knight), 7 => Some(PromotePiece::Bishop), 8 => Some(PromotePiece::Rook), 9 => Some(PromotePiece::Queen), _ => None };
+        match k {
+            0 => assert!(data == Data::Uci(uci::Move::Null)),
+            2 => assert!(data == Data::Castling(CastlingSide::King)),
+            3 => assert!(data == Data::Castling(CastlingSide::Queen)),
+            _ => {
+                // pawn: straight => destination (+ promotion); diagonal (incl. en passant) => file x destination
+                if s % 8 == d % 8 { assert!(data == Data::PawnMove { dst: ab::coord(d), promote: promo }); }
+                else { assert!(data == Data::PawnCapture { src: ab::coord(s).file(), dst: ab::coord(d), promote: promo }); }
+            }
+        }
+        cover!(k == 5);
+        cover!(k == 9 && s % 8 != d % 8);
+    }
+}
